@@ -502,6 +502,10 @@ def _coll_oracle(interp, env, f, args, t, bb, path):
         if k == "alloc::vec::Vec::truncate" and isinstance(args[1], int):
             view_set(interp, v0, items[:args[1]])
             return unit
+        if k == "alloc::vec::Vec::truncate":
+            # an unknown length: what is left is not known - the contents become one undecided element rather than staying as they were
+            view_set(interp, v0, [TOP])
+            return unit
         if k == "alloc::vec::Vec::clear":
             view_set(interp, v0, [])
             return unit
@@ -641,6 +645,8 @@ def _coll_oracle(interp, env, f, args, t, bb, path):
             return It(items)
         if nm in ("to_vec", "to_owned", "clone") and (sa == "alloc::vec::Vec" or sty.startswith("[") or dk == "core::clone::Clone::clone"):
             return new_vec(interp, items)
+        if nm in ("into_boxed_slice", "into_vec") and not by_ref:
+            return v0           # Vec<T> <-> Box<[T]>: the same elements, owned
         if nm in ("deref", "deref_mut", "as_slice", "as_mut_slice", "as_ref", "as_mut", "borrow", "borrow_mut"):
             if nm in ("deref", "deref_mut") and isinstance(a0, Ref) and not sty.startswith("alloc::vec::Vec") and isinstance(interp.read_ref(env, a0), (Ref, HRef)):
                 # a guard / smart pointer around the vector (RefMut<Vec<_>>, &mut &mut Vec<_>): its target is the place the vector lives in
